@@ -281,6 +281,7 @@ func (a *AggregatePlan) updateRowAggrFunc(row []*AggrPlanField, kvp KVPair, ctx 
 			return NewExecuteError(0, "Cannot cast expression to function call expression")
 		}
 		for i, fcexpr := range fcexprs {
+			simYield("aggr.update")
 			err := col.Funcs[i].Update(kvp, fcexpr.Args, ctx)
 			if err != nil {
 				return err
@@ -418,6 +419,7 @@ func (a *AggregatePlan) batch(ctx *ExecuteCtx) ([][]Column, error) {
 					}
 					col.FuncExprs[i].Result = val
 				}
+				simYield("aggr.emit")
 				row[i], err = col.Expr.Execute(NewKVP(nil, nil), ctx)
 				if err != nil {
 					return nil, err
@@ -486,6 +488,7 @@ func (a *AggregatePlan) next(ctx *ExecuteCtx) ([]Column, error) {
 				}
 				col.FuncExprs[i].Result = val
 			}
+			simYield("aggr.emit")
 			row[i], err = col.Expr.Execute(NewKVP(nil, nil), ctx)
 			if err != nil {
 				return nil, err
